@@ -1,8 +1,56 @@
-(* C07/Props.v -- the property theorems, and nothing else. *)
+(* C07/Props.v -- the property theorems, and nothing else.  Each is closed by [exact] of a lemma of
+   Proofs.v and followed by Print Assumptions.
+
+   Reading.  sc = the cluster-assignment vector; a "group" of id c is
+   members sc ids c = [ids[i] | i ascending, sc[i] = c]  (ids = np.arange(len(sc)) unless a spike-id
+   vector is supplied, in which case only its first len(sc) entries are used and a shorter vector
+   is an IndexError).  All statements are over Z: no dtype wrap-around is modelled (the only
+   subtraction of the code, np.diff of the sorted ids, is of sorted neighbours). *)
 From Coq Require Import ZArith List Lia Bool Arith Permutation Sorted.
 From PV Require Import Base.NpSort C07.Model C07.Spec C07.Proofs.
 Import ListNotations.
 Open Scope Z_scope.
+
+(* Grouping: for every assignment vector and every (long enough) optional spike-id vector the
+   dictionary exists, its keys are exactly the ids present (strictly increasing, so no other and no
+   duplicate key), each group is exactly the members of its key in input order; and the groups
+   partition the spikes: concatenated they are a permutation of all spike ids, and no id is repeated
+   when the spike ids are distinct. *)
+Theorem C07_groups : forall (sc : list Z) (spike_ids : option (list Z)),
+  (length sc <= length (eff_ids sc spike_ids))%nat ->
+  exists d, spikes_per_cluster sc spike_ids = Some d /\ Groups_Spec sc (eff_ids sc spike_ids) d.
+Proof. intros sc o H. destruct (spc_groups sc o H) as (d & A & B & _). now exists d. Qed.
+Print Assumptions C07_groups.
+
+Theorem C07_partition : forall (sc : list Z) (spike_ids : option (list Z)),
+  (length sc <= length (eff_ids sc spike_ids))%nat ->
+  exists d, spikes_per_cluster sc spike_ids = Some d /\ Partition_Spec sc (eff_ids sc spike_ids) d.
+Proof. intros sc o H. destruct (spc_groups sc o H) as (d & A & _ & B). now exists d. Qed.
+Print Assumptions C07_partition.
+
+(* with the default spike ids (positions) the hypothesis is vacuous and every group is the strictly
+   increasing list of the positions carrying its id *)
+Theorem C07_groups_positions : forall (sc : list Z),
+  exists d, spikes_per_cluster sc None = Some d /\ Groups_Spec sc (arange (length sc)) d /\
+    Forall (fun g => StronglySorted Z.lt (g_ids g) /\
+                     forall i, In i (g_ids g) <-> exists p, i = Z.of_nat p /\ nth_error sc p = Some (g_key g)) d.
+Proof. exact spc_positions. Qed.
+Print Assumptions C07_groups_positions.
+
+(* the guard of C07_groups is exact: a spike-id vector shorter than sc is an error (IndexError) *)
+Theorem C07_groups_short_ids : forall (sc ids : list Z),
+  (length ids < length sc)%nat -> spikes_per_cluster sc (Some ids) = None.
+Proof. exact spc_short. Qed.
+Print Assumptions C07_groups_short_ids.
+
+(* Selection: the spikes of any requested list of clusters (unsorted, with duplicates, with absent
+   ids) are the sorted union of the groups of the requested ids -- and that union is unique. *)
+Theorem C07_in_clusters : forall (sc cl : list Z) (d : list group),
+  spikes_per_cluster sc None = Some d ->
+  Union_Spec cl d (spikes_in_clusters sc cl) /\
+  forall u, Union_Spec cl d u -> spikes_in_clusters sc cl = u.
+Proof. exact in_clusters_thm. Qed.
+Print Assumptions C07_in_clusters.
 
 (* TemplateModel.get_cluster_spikes / get_template_spikes: the increasing list of the positions
    carrying the requested id (the group of that id; empty when the id is absent) *)
@@ -11,3 +59,15 @@ Theorem C07_cluster_spikes : forall (v : list Z) (c : Z),
   get_template_spikes v c = members v (arange (length v)) c.
 Proof. intros v c. split; exact (cluster_spikes_members v c). Qed.
 Print Assumptions C07_cluster_spikes.
+
+(* ---- non-vacuity: concrete, non-trivial instances ---- *)
+Example C07_ex_groups :
+  spikes_per_cluster [7; 0; 3; 3; 0; 7; 2] None =
+  Some [mkg 0 [1; 4]; mkg 2 [6]; mkg 3 [2; 3]; mkg 7 [0; 5]].
+Proof. vm_compute. reflexivity. Qed.
+Example C07_ex_groups_ids :
+  spikes_per_cluster [7; 0; 3; 3; 0; 7; 2] (Some [10; 5; 8; 9; 1; 2; 3; 99]) =
+  Some [mkg 0 [5; 1]; mkg 2 [3]; mkg 3 [8; 9]; mkg 7 [10; 2]].
+Proof. vm_compute. reflexivity. Qed.
+Example C07_ex_in_clusters : spikes_in_clusters [7; 0; 3; 3; 0; 7; 2] [9; 3; -1; 0; 3] = [1; 2; 3; 4].
+Proof. vm_compute. reflexivity. Qed.
